@@ -267,3 +267,18 @@ def format_letters():
                               'Zone\t%s\t1:00\t%s\t%s' % (z, p, f)])
             out.append(('format', '%s:%s/%s' % (f, ls, ld), 'FORMAT %s LETTER %s/%s' % (f, ls, ld), text, z))
     return out
+
+
+def many_eras():
+    """-> [(family, signature, description, text, zone)] 3..9 eras inside one year (the extended processor holds at most
+    kMaxMatches = 4 eras per 14-month window). Kept apart from dense_policies(): those crash their shard."""
+    months = ['Jan', 'Feb', 'Mar', 'Apr', 'May', 'Jun', 'Jul', 'Aug', 'Sep', 'Oct', 'Nov', 'Dec']
+    out = []
+    for n in (2, 3, 4, 5, 6, 8):
+        z = 'D/e%d' % n
+        lines = []
+        for i in range(n):
+            lines.append(('Zone\t%s\t' % z if i == 0 else '\t\t\t') + '%d:00\t-\tE%02dT\t2012 %s 1 0:00' % (1 + i % 3, i, months[1 + (i * 10) // n]))
+        lines.append('\t\t\t5:00\t-\tLAST')
+        out.append(('eras', 'eras=%d' % (n + 1), '%d eras within 2012' % (n + 1), '\n'.join(lines), z))
+    return out
